@@ -1459,7 +1459,7 @@ async fn miner_share_under_the_zero_key_is_not_lost() {
             }
         };
         let mut gttx =
-            Wallet::create_golden_ticket_transaction(ticket, &public_key, &private_key).await;
+            crate::core::consensus::wallet::Wallet::create_golden_ticket_transaction(ticket, &public_key, &private_key).await;
         gttx.generate(&public_key, 0, 0);
         Block::create(
             &mut transactions,
@@ -1658,7 +1658,7 @@ async fn nft_group_rebroadcast_pays_the_fee() {
             )
             .await;
             let mut gttx =
-                Wallet::create_golden_ticket_transaction(gt, &public_key, &private_key).await;
+                crate::core::consensus::wallet::Wallet::create_golden_ticket_transaction(gt, &public_key, &private_key).await;
             gttx.generate(&public_key, 0, 0);
             gt_tx = Some(gttx);
         }
@@ -1914,7 +1914,7 @@ async fn rebroadcast_with_a_treasury_payout_spends_the_expiring_output() {
             )
             .await;
             let mut gttx =
-                Wallet::create_golden_ticket_transaction(gt, &public_key, &private_key).await;
+                crate::core::consensus::wallet::Wallet::create_golden_ticket_transaction(gt, &public_key, &private_key).await;
             gttx.generate(&public_key, 0, 0);
             gt_tx = Some(gttx);
         }
@@ -2133,7 +2133,7 @@ async fn block_with_a_treasury_payout_passes_its_creators_own_validation() {
             )
             .await;
             let mut gttx =
-                Wallet::create_golden_ticket_transaction(gt, &public_key, &private_key).await;
+                crate::core::consensus::wallet::Wallet::create_golden_ticket_transaction(gt, &public_key, &private_key).await;
             gttx.generate(&public_key, 0, 0);
             gt_tx = Some(gttx);
         }
@@ -2357,7 +2357,7 @@ async fn capped_treasury_payout_is_what_the_outputs_receive() {
             )
             .await;
             let mut gttx =
-                Wallet::create_golden_ticket_transaction(gt, &public_key, &private_key).await;
+                crate::core::consensus::wallet::Wallet::create_golden_ticket_transaction(gt, &public_key, &private_key).await;
             gttx.generate(&public_key, 0, 0);
             gt_tx = Some(gttx);
         }
@@ -3470,4 +3470,473 @@ async fn payload_of_an_nft_group_whose_bound_slip_was_spent_is_not_lost() {
     };
 
     if !(!block8_valid || block8_supply == initial_supply) { witness(format!("block 8, built by Block::create and accepted by Block::validate ({}), lets block 2 leave the window with its unspent 500000 nolan NFT payload neither rebroadcast (rebroadcast inputs: {:?}, the change output alone) nor collected as a fee (total_fees_atr {}): because the first Bound slip of the group was spent the whole group is skipped, the supply falls from {} to {}", node_reaction, rebroadcast, block8_fees_atr, initial_supply, block8_supply)); }
+}
+
+/// C11: a decodable block whose transactions claim fees up to u64::MAX is refused, not fatal, also once the chain pays rebroadcast fees
+#[tokio::test]
+#[serial_test::serial]
+async fn fetched_block_with_saturated_fees_on_a_chain_that_rebroadcasts_is_refused_not_fatal() {
+    #[allow(unused_imports)] use crate::core::util::crypto::generate_keys;
+    #[allow(unused_imports)] use crate::core::util::test::node_tester::test::NodeTester;
+    #[allow(unused_imports)] use crate::core::consensus::slip::Slip;
+    #[allow(unused_imports)] use crate::core::defs::NOLAN_PER_SAITO;
+    #[allow(unused_imports)] use crate::core::defs::PrintForLog;
+    #[allow(unused_imports)] use crate::core::defs::Currency;
+    #[allow(unused_imports)] use crate::core::consensus::transaction::Transaction;
+    #[allow(unused_imports)] use crate::core::consensus::block::Block;
+    #[allow(unused_imports)] use crate::core::util::crypto::hash;
+    #[allow(unused_imports)] use std::panic::AssertUnwindSafe;
+    #[allow(unused_imports)] use crate::core::io::storage::Storage;
+    use crate::core::util::test::test_io_handler::test::TestIOHandler;
+    use futures::FutureExt;
+    use std::ops::Deref;
+
+    NodeTester::delete_data().await.unwrap();
+    let mut tester = NodeTester::new(10, None, None);
+    let public_key = tester.get_public_key().await;
+    let issuance = vec![
+        (public_key.to_base58(), 100_000 * NOLAN_PER_SAITO),
+        (
+            "27UK2MuBTdeARhYp97XBnCovGkEquJjkrQntCgYoqj6GC".to_string(),
+            50_000 * NOLAN_PER_SAITO,
+        ),
+    ];
+    tester.set_issuance(issuance).await.unwrap();
+    tester.set_staking_enabled(false).await;
+    tester.init().await.unwrap();
+    tester.wait_till_block_id(1).await.unwrap();
+
+    // an honest chain as long as its genesis period (10 here) plus one, with fee-paying transactions: the next
+    // block lets the outputs of block 1 fall off the chain (the unspent issuance of the second key is
+    // rebroadcast and pays a rebroadcast fee)
+    for i in 2..=11 {
+        let tx = tester
+            .create_transaction(10, 1_000_000, public_key)
+            .await
+            .unwrap();
+        tester.add_transaction(tx).await;
+        tester.wait_till_block_id(i).await.unwrap();
+    }
+
+    let blockchain = tester.consensus_thread.blockchain_lock.read().await;
+    let configs = tester.consensus_thread.config_lock.read().await;
+    let storage = Storage::new(Box::new(TestIOHandler::new()));
+    let tip = blockchain.get_latest_block().unwrap();
+
+    // the block a peer sends: built on the tip, one transaction claiming an input of u64::MAX
+    let attacker = generate_keys();
+    let mut block = Block::new();
+    block.id = tip.id + 1;
+    block.previous_block_hash = tip.hash;
+    block.timestamp = tip.timestamp + 60_000;
+    block.creator = attacker.0;
+
+    // (setup) the payout computation of a block at this height finds rebroadcast fees
+    let cv = block
+        .generate_consensus_values(&blockchain, &storage, configs.deref())
+        .await;
+    assert!(
+        cv.total_fees_atr > 0,
+        "setup : outputs are falling off the chain at this height and pay rebroadcast fees"
+    );
+
+    let mut tx = Transaction::default();
+    let mut input = Slip::default();
+    input.public_key = attacker.0;
+    input.amount = Currency::MAX;
+    input.block_id = 1;
+    tx.add_from_slip(input);
+    let mut output = Slip::default();
+    output.public_key = attacker.0;
+    output.amount = 0;
+    tx.add_to_slip(output);
+    tx.sign(&attacker.1);
+    block.add_transaction(tx);
+    block.merkle_root = block.generate_merkle_root(false, false);
+    block.generate().unwrap();
+    block.sign(&attacker.1);
+    block.generate().unwrap();
+    assert_eq!(block.transactions[0].total_fees, Currency::MAX);
+
+    let verdict = std::panic::AssertUnwindSafe(block.validate(
+        &blockchain,
+        &blockchain.utxoset,
+        configs.deref(),
+        &storage,
+        true,
+    ))
+    .catch_unwind()
+    .await;
+    if !(verdict.is_ok()) { witness(format!("a decodable block with one transaction claiming an input of u64::MAX still stops the node with an arithmetic overflow instead of being refused, as soon as the chain pays rebroadcast fees : commit 8ca5c7f saturates total_fees_new but the next lines add total_fees_atr to it unchecked")); }
+    assert_eq!(verdict.unwrap(), false, "the block must be refused");
+}
+
+/// C06: two blocks with the same hash carry the same content: the signature bytes of a block-generated transaction are part of it
+#[tokio::test]
+#[serial_test::serial]
+async fn signature_bytes_of_the_fee_transaction_of_a_signed_block_cannot_be_rewritten() {
+    #[allow(unused_imports)] use crate::core::util::crypto::generate_keys;
+    #[allow(unused_imports)] use ahash::AHashMap;
+    #[allow(unused_imports)] use crate::core::consensus::wallet::Wallet;
+    #[allow(unused_imports)] use crate::core::util::test::test_manager::test::TestManager;
+    #[allow(unused_imports)] use crate::core::defs::PrintForLog;
+    #[allow(unused_imports)] use crate::core::consensus::transaction::Transaction;
+    #[allow(unused_imports)] use crate::core::consensus::transaction::TransactionType;
+    #[allow(unused_imports)] use crate::core::consensus::block::Block;
+    #[allow(unused_imports)] use crate::core::consensus::block::BlockType;
+    use crate::core::consensus::blockchain::AddBlockResult;
+    use crate::core::defs::SaitoSignature;
+    use std::ops::Deref;
+
+    let mut t = TestManager::default();
+    t.initialize(10, 1_000_000).await;
+    let genesis = t.get_latest_block().await;
+    assert_eq!(genesis.id, 1);
+
+    // block 2: one transaction with a fee of 1000, no golden ticket
+    let block2 = t
+        .create_block(genesis.hash, genesis.timestamp + 120_000, 1, 1000, 1000, false)
+        .await;
+    let block2_hash = block2.hash;
+    let block2_timestamp = block2.timestamp;
+    let block2_difficulty = block2.difficulty;
+    let result = t.add_block(block2).await;
+    assert!(matches!(
+        result,
+        AddBlockResult::BlockAddedSuccessfully(_, true, _)
+    ));
+
+    // block 3 by the wallet key: one transaction and a golden ticket for block 2, hence a fee
+    // transaction that pays block 2's fees out
+    let (public_key, private_key) = {
+        let wallet = t.wallet_lock.read().await;
+        (wallet.public_key, wallet.private_key)
+    };
+    let mut tx = {
+        let mut wallet = t.wallet_lock.write().await;
+        Transaction::create(&mut wallet, public_key, 1000, 1000, false, None, 2, 100).unwrap()
+    };
+    tx.sign(&private_key);
+    tx.generate(&public_key, 0, 0);
+    let mut transactions: AHashMap<SaitoSignature, Transaction> = Default::default();
+    transactions.insert(tx.signature, tx);
+    let golden_ticket =
+        TestManager::create_golden_ticket(t.wallet_lock.clone(), block2_hash, block2_difficulty)
+            .await;
+    let mut gttx =
+        crate::core::consensus::wallet::Wallet::create_golden_ticket_transaction(golden_ticket, &public_key, &private_key).await;
+    gttx.generate(&public_key, 0, 0);
+    let mut block3 = {
+        let configs = t.config_lock.read().await;
+        let blockchain = t.blockchain_lock.read().await;
+        Block::create(
+            &mut transactions,
+            block2_hash,
+            &blockchain,
+            block2_timestamp + 120_000,
+            &public_key,
+            &private_key,
+            Some(gttx),
+            configs.deref(),
+            &t.storage,
+        )
+        .await
+        .unwrap()
+    };
+    block3.generate().unwrap();
+    block3.sign(&private_key);
+    assert_eq!(block3.id, 3);
+    let fee_pos = block3
+        .transactions
+        .iter()
+        .position(|tx| tx.transaction_type == TransactionType::Fee)
+        .expect("block 3 carries a fee transaction");
+    assert!(!block3.transactions[fee_pos].to.is_empty());
+    let signed_id = block3.transactions[fee_pos].signature;
+
+    let original_bytes = block3.serialize_for_net(BlockType::Full);
+
+    // control 0: the block as signed is valid on this chain
+    {
+        let configs = t.config_lock.read().await;
+        let blockchain = t.blockchain_lock.read().await;
+        let mut honest = Block::deserialize_from_net(&original_bytes).unwrap();
+        honest.generate().unwrap();
+        assert!(
+            honest
+                .validate(&blockchain, &blockchain.utxoset, configs.deref(), &t.storage, true)
+                .await
+        );
+    }
+
+    // control 1: the untouched bytes decode to the block the creator signed
+    let mut same = Block::deserialize_from_net(&original_bytes).unwrap();
+    same.generate().unwrap();
+    assert_eq!(same.hash, block3.hash);
+
+    // control 2: an edit the commitment does cover (the first payout goes to somebody else) is refused
+    let mut redirected = Block::deserialize_from_net(&original_bytes).unwrap();
+    redirected.transactions[fee_pos].to[0].public_key = generate_keys().0;
+    let redirected =
+        Block::deserialize_from_net(&redirected.serialize_for_net(BlockType::Full)).unwrap();
+    let result = t.add_block(redirected).await;
+    assert!(matches!(result, AddBlockResult::FailedNotValid));
+    {
+        let blockchain = t.blockchain_lock.read().await;
+        assert!(!blockchain.blocks.contains_key(&block3.hash));
+        assert_eq!(blockchain.get_latest_block_id(), 2);
+    }
+
+    // hostile edit by a keyless third party: the signature field of the fee transaction, which is
+    // the id transactions are known by (mempool, wallet, explorers), is overwritten with 0xAB bytes
+    let mut edited = Block::deserialize_from_net(&original_bytes).unwrap();
+    edited.transactions[fee_pos].signature = [0xAB; 64];
+    let edited_bytes = edited.serialize_for_net(BlockType::Full);
+    assert_eq!(edited_bytes.len(), original_bytes.len());
+    assert_ne!(edited_bytes, original_bytes);
+    let mut edited = Block::deserialize_from_net(&edited_bytes).unwrap();
+    edited.generate().unwrap();
+    assert_ne!(edited.transactions[fee_pos].signature, signed_id);
+    // header, signature and therefore the block hash are those of the signed block
+    assert_eq!(edited.merkle_root, block3.merkle_root);
+    assert_eq!(edited.signature, block3.signature);
+    assert_eq!(edited.hash, block3.hash);
+
+    let edited = Block::deserialize_from_net(&edited_bytes).unwrap();
+    let result = t.add_block(edited).await;
+    if !(!matches!(result, AddBlockResult::BlockAddedSuccessfully(..))) { witness(format!("block 3 ({}) was accepted after a keyless third party overwrote the 64 signature bytes of its fee transaction (position {}) with 0xAB; merkle root, creator signature and block hash are unchanged because the merkle leaf of a transaction is the hash of the bytes its signature is made over and the signature of a fee transaction is never verified, so two different transaction lists (the fee transaction is known by two different ids) are acceptable under one block hash", block3.hash.to_hex(), fee_pos)); }
+}
+
+/// C18: the lite block a server builds is accepted by the browser node it is built for, also when the full block carries a golden ticket and its fee transaction does not concern the client
+#[allow(dead_code)]
+// append to saito-core/src/core/consensus/block.rs
+//
+// 49a1fad ("a block with a golden ticket carries the fee transaction that pays out") refuses every
+// block that has a golden ticket, no fee transaction and a non-empty expected payout. generate_lite_block
+// keeps the golden ticket of every block (`|| tx.is_golden_ticket()`) but replaces the fee transaction by
+// a placeholder unless one of its outputs pays a key of the lite client. so the lite block a full node
+// serves to a browser node for any block with a golden ticket is now refused by that browser node as soon
+// as the parent block is held as a (lite) block too, i.e. whenever two consecutive blocks concern the
+// client.
+#[derive(Debug)]
+struct AuditDemoBrowserConfig {
+    consensus: crate::core::util::configuration::ConsensusConfig,
+    blockchain: crate::core::util::configuration::BlockchainConfig,
+}
+impl crate::core::util::configuration::Configuration for AuditDemoBrowserConfig {
+    fn get_server_configs(&self) -> Option<&crate::core::util::configuration::Server> {
+        None
+    }
+    fn get_peer_configs(&self) -> &Vec<crate::core::util::configuration::PeerConfig> {
+        todo!()
+    }
+    fn get_blockchain_configs(&self) -> &crate::core::util::configuration::BlockchainConfig {
+        &self.blockchain
+    }
+    fn get_block_fetch_url(&self) -> String {
+        "".to_string()
+    }
+    fn is_spv_mode(&self) -> bool {
+        false
+    }
+    fn is_browser(&self) -> bool {
+        true
+    }
+    fn replace(&mut self, _config: &dyn crate::core::util::configuration::Configuration) {
+        todo!()
+    }
+    fn get_consensus_config(
+        &self,
+    ) -> Option<&crate::core::util::configuration::ConsensusConfig> {
+        Some(&self.consensus)
+    }
+}
+
+/// a block of the full node `t` on top of `parent` with `txs` payments of the node to `to_key`
+/// (each paying `fee`), and, if asked for, a golden ticket solving the parent handed to
+/// Block::create the way the bundler hands it over
+async fn audit_demo_block_paying(
+    t: &mut TestManager,
+    parent: &Block,
+    to_key: SaitoPublicKey,
+    txs: usize,
+    fee: Currency,
+    with_golden_ticket: bool,
+) -> Block {
+    use std::ops::Deref;
+    let configs = t.config_lock.read().await;
+    let genesis_period = configs.get_consensus_config().unwrap().genesis_period;
+    let (public_key, private_key) = {
+        let wallet = t.wallet_lock.read().await;
+        (wallet.public_key, wallet.private_key)
+    };
+    let mut transactions: AHashMap<crate::core::defs::SaitoSignature, Transaction> =
+        Default::default();
+    for _ in 0..txs {
+        let mut tx = {
+            let mut wallet = t.wallet_lock.write().await;
+            Transaction::create(
+                &mut wallet,
+                to_key,
+                1_000,
+                fee,
+                false,
+                None,
+                parent.id,
+                genesis_period,
+            )
+            .unwrap()
+        };
+        tx.sign(&private_key);
+        tx.generate(&public_key, 0, 0);
+        transactions.insert(tx.signature, tx);
+    }
+    let mut gt_tx = None;
+    if with_golden_ticket {
+        let golden_ticket =
+            TestManager::create_golden_ticket(t.wallet_lock.clone(), parent.hash, parent.difficulty)
+                .await;
+        let mut tx =
+            crate::core::consensus::wallet::Wallet::create_golden_ticket_transaction(golden_ticket, &public_key, &private_key)
+                .await;
+        tx.generate(&public_key, 0, 0);
+        gt_tx = Some(tx);
+    }
+    let blockchain = t.blockchain_lock.read().await;
+    let mut block = Block::create(
+        &mut transactions,
+        parent.hash,
+        blockchain.deref(),
+        parent.timestamp + 120_000,
+        &public_key,
+        &private_key,
+        gt_tx,
+        configs.deref(),
+        &t.storage,
+    )
+    .await
+    .unwrap();
+    block.generate().unwrap();
+    block
+}
+
+#[tokio::test]
+#[serial_test::serial]
+async fn browser_node_accepts_the_lite_block_of_a_block_with_a_golden_ticket() {
+    #[allow(unused_imports)] use crate::core::util::crypto::generate_keys;
+    #[allow(unused_imports)] use crate::core::consensus::wallet::Wallet;
+    #[allow(unused_imports)] use crate::core::util::test::test_manager::test::TestManager;
+    #[allow(unused_imports)] use crate::core::consensus::transaction::TransactionType;
+    #[allow(unused_imports)] use crate::core::consensus::block::Block;
+    #[allow(unused_imports)] use crate::core::consensus::block::BlockType;
+    #[allow(unused_imports)] use crate::core::defs::SaitoPublicKey;
+    #[allow(unused_imports)] use crate::core::consensus::golden_ticket::GoldenTicket;
+    #[allow(unused_imports)] use crate::core::util::crypto::hash;
+    #[allow(unused_imports)] use crate::core::io::storage::Storage;
+    use crate::core::consensus::blockchain::{AddBlockResult, Blockchain};
+    use crate::core::consensus::mempool::Mempool;
+    use crate::core::util::test::test_io_handler::test::TestIOHandler;
+    use std::sync::Arc;
+    use tokio::sync::RwLock;
+
+    // ---- the full node ----
+    let mut t = TestManager::default();
+    t.initialize(100, 200_000_000_000).await;
+    let block1 = t.get_latest_block().await;
+
+    // the key of the lite (browser) client
+    let lite_keys = generate_keys();
+    let lite_key: SaitoPublicKey = lite_keys.0;
+
+    // block 2 : payments to the lite client that pay fees
+    let block2 = audit_demo_block_paying(&mut t, &block1, lite_key, 2, 50_000, false).await;
+    assert!(block2.total_fees > 0);
+    let result = t.add_block(block2.clone()).await;
+    assert!(
+        matches!(result, AddBlockResult::BlockAddedSuccessfully(_, true, _)),
+        "setup : the full node accepts block 2"
+    );
+
+    // block 3 : another payment to the lite client, and the golden ticket that pays block 2 out
+    let block3 = audit_demo_block_paying(&mut t, &block2, lite_key, 1, 50_000, true).await;
+    assert!(block3.has_golden_ticket, "setup : block 3 has a golden ticket");
+    assert!(block3.has_fee_transaction, "setup : block 3 has a fee transaction");
+    assert!(
+        !block3.transactions[block3.fee_transaction_index as usize]
+            .to
+            .is_empty(),
+        "setup : the fee transaction of block 3 pays out"
+    );
+    let result = t.add_block(block3.clone()).await;
+    assert!(
+        matches!(result, AddBlockResult::BlockAddedSuccessfully(_, true, _)),
+        "setup : the full node accepts block 3"
+    );
+
+    // ---- what the full node serves the lite client ----
+    let serve = |block: &Block| -> Block {
+        let lite = block.generate_lite_block(vec![lite_key]);
+        let buffer = lite.serialize_for_net(BlockType::Full);
+        let mut received = Block::deserialize_from_net(&buffer).unwrap();
+        received.generate().unwrap();
+        received
+    };
+    let lite2 = serve(&block2);
+    let lite3 = serve(&block3);
+    assert_eq!(lite2.hash, block2.hash);
+    assert_eq!(lite3.hash, block3.hash);
+    assert!(
+        lite3
+            .transactions
+            .iter()
+            .any(|tx| tx.transaction_type == TransactionType::GoldenTicket),
+        "setup : the lite block keeps the golden ticket"
+    );
+    assert!(
+        !lite3
+            .transactions
+            .iter()
+            .any(|tx| tx.transaction_type == TransactionType::Fee),
+        "setup : the fee transaction (which pays the miner and the router, not the client) is a placeholder"
+    );
+    assert!(
+        lite3.transactions.iter().any(|tx| tx
+            .to
+            .iter()
+            .any(|slip| slip.public_key == lite_key)),
+        "setup : the lite block carries the client's payment"
+    );
+
+    // ---- the browser node of the lite client ----
+    let browser_configs = AuditDemoBrowserConfig {
+        consensus: crate::core::util::configuration::ConsensusConfig {
+            genesis_period: 100,
+            heartbeat_interval: 100,
+            prune_after_blocks: 8,
+            max_staker_recursions: 3,
+            default_social_stake: 0,
+            default_social_stake_period: 60,
+        },
+        blockchain: Default::default(),
+    };
+    let lite_wallet = Arc::new(RwLock::new(Wallet::new(lite_keys.1, lite_keys.0)));
+    let mut lite_blockchain = Blockchain::new(lite_wallet.clone(), 100, 0, 60);
+    let mut lite_mempool = Mempool::new(lite_wallet.clone());
+    let mut lite_storage = Storage::new(Box::new(TestIOHandler::new()));
+
+    let result = lite_blockchain
+        .add_block(lite2, &mut lite_storage, &mut lite_mempool, &browser_configs)
+        .await;
+    assert!(
+        matches!(result, AddBlockResult::BlockAddedSuccessfully(_, true, _)),
+        "setup : the browser node accepts the lite block of block 2 : {:?}",
+        result
+    );
+    assert_eq!(lite_blockchain.get_latest_block_id(), 2);
+
+    let result = lite_blockchain
+        .add_block(lite3, &mut lite_storage, &mut lite_mempool, &browser_configs)
+        .await;
+    if !(matches!(result, AddBlockResult::BlockAddedSuccessfully(_, true, _))) { witness(format!("a browser (lite) node refuses the honest lite block of a block with a golden ticket, because the lite block keeps the golden ticket but replaces the fee transaction by a placeholder and commit 49a1fad refuses a golden ticket without fee transaction : {:?}", result)); }
+    assert_eq!(lite_blockchain.get_latest_block_id(), 3);
 }
